@@ -5,6 +5,9 @@ import Req.Client.Merge
 import Req.H2.Fields
 import Req.H1.Origin
 import Req.H3.BodyWrite
+import Req.H1.BodyWrite
+import Req.H2.BodyWire
+import Req.Client.AttemptOrder
 import Req.H1.RoundTrip
 import Req.Client.Replay
 import Req.Props.C01ConnSeq
@@ -311,6 +314,51 @@ def laneH3Body : List String → String
     | _, _, _, _ => "bad-op"
   | _ => "bad-op"
 
+/-- `c01h1body <method> <cl|-1> <buf> <body> <read sizes> <ending>`: `newTransferWriter` +
+`transferWriter.writeBody` on a scripted body reader — the framing chosen, how `writeBody` ends,
+every byte it wrote. -/
+def laneH1Body : List String → String
+  | [method, cl, buf, body, sizes, ending] =>
+    match decodeHex method, decodeInt cl, buf.toNat?, Wire.decodeBody body, decodeNatList sizes,
+          decodeEnding ending with
+    | some method, some cl, some buf, some body, some sizes, some ending =>
+      let p := Req.H1.BodyWrite.plan method (if cl ≤ 0 then none else some cl.toNat)
+        { data := body, sizes := sizes, ending := ending }
+      let (w, o) := Req.H1.BodyWrite.writeBody buf p
+      let ms := match p.mode with
+        | .noBody => "nobody" | .chunked => "chunked" | .identity => "identity" | .known n => s!"known:{n}"
+      let os := match o with | .ok => "ok" | .readError => "readerr" | .bodyLength => "bodylen"
+      s!"{ms} {os} " ++ Wire.showBlob w
+    | _, _, _, _, _, _ => "bad-op"
+  | _ => "bad-op"
+
+/-- `c01h2wire <sid> <maxRead> <body> <frame sizes> <ends> <tail>`: `Framer.WriteData` for every
+frame (`ends`: 0 plain, 1 END_STREAM, 2 a frame of stream `sid+2`) and an origin collecting the
+content of stream `sid` with `Framer.ReadFrame`. -/
+def laneH2Wire : List String → String
+  | [sid, maxRead, body, sizes, ends, tail] =>
+    match sid.toNat?, maxRead.toNat?, Wire.decodeBody body, decodeNatList sizes, decodeNatList ends, decodeHex tail with
+    | some sid, some maxRead, some body, some sizes, some ends, some tail =>
+      if sizes.length != ends.length then "bad-op" else
+      let rec cut (b : Bytes) : List Nat → List Bytes
+        | [] => []
+        | z :: zs => b.take z :: cut (b.drop z) zs
+      let other := if sid + 2 ≥ 2147483648 then 1 else sid + 2
+      let parts := (cut body sizes).zip ends
+      let enc := parts.map fun (p, e) =>
+        if e == 2 then Req.H2.BodyWire.frameWire other (.data p false)
+        else Req.H2.BodyWire.frameWire sid (.data p (e == 1))
+      match enc.foldr (fun x acc => match x, acc with | some a, some b => some (a ++ b) | _, _ => none) (some []) with
+      | none => "write-error"
+      | some w =>
+        let rd : Req.H2.Frame.Reader := { maxReadSize := Req.H2.Frame.setMaxReadFrameSize maxRead }
+        match Req.H2.BodyWire.readBody sid (parts.length + 1) rd (w ++ tail) with
+        | none => s!"wire {Wire.showBlob w} read none"
+        | some (ds, rest) =>
+          s!"wire {Wire.showBlob w} read {encodeNatList (ds.map (·.length))} {Wire.showBlob ds.flatten} rest={rest.length}"
+    | _, _, _, _, _, _ => "bad-op"
+  | _ => "bad-op"
+
 /-! ### transparent replays -/
 
 def decodeKind : String → Option Req.Replay.BodyKind
@@ -335,6 +383,34 @@ def decodeH2Attempt (t : String) : Option Req.Replay.H2Attempt :=
       else if c == 'P' then some (.protoFromPeer k) else if c == 'O' then some (.other k) else none
     | none => none
   | [] => none
+
+def decodeTry (t : String) : Option Req.Attempts.Try :=
+  match t.toList with
+  | ['S'] => some .skipped
+  | ['R'] => some .response
+  | ['N'] => some (.noConn 0 false)
+  | 'E' :: rest => (String.ofList rest).toNat?.map fun k => .error k
+  | _ => none
+
+def showStage : Req.Attempts.Stage → String
+  | .altSvc => "alt" | .h2Cached => "h2" | .h3Cached => "h3" | .conn => "conn"
+
+/-- `c01attempts <kind> <idempotent> <data> <alt> <h2> <h3>`: `Transport.roundTrip` with the given
+stage outcomes (`S` skipped, `R` response, `E<k>` error after k body bytes, `N` cache miss) and a
+connection loop whose first attempt is answered: the result and the attempts that reached a
+connection (stage:body position:answered). -/
+def laneAttempts : List String → String
+  | [kind, idem, data, alt, h2, h3] =>
+    match decodeKind kind, Wire.decodeBody data, decodeTry alt, decodeTry h2, decodeTry h3 with
+    | some kind, some data, some alt, some h2, some h3 =>
+      let r : Req.Replay.Req := { kind := kind, data := data, idempotent := idem == "1" }
+      let (res, w) := Req.Attempts.roundTrip Req.Replay.Fixes.all r
+        ⟨alt, h2, h3, [⟨false, none, 0, false⟩]⟩
+      let tr := if w.isEmpty then "-" else
+        ",".intercalate (w.map fun e => s!"{showStage e.stage}:{e.pos}:{b01 e.answered}")
+      showResult res ++ " trace=" ++ tr
+    | _, _, _, _, _ => "bad-op"
+  | _ => "bad-op"
 
 /-- `c01h2retry <honest> <kind> <attempts> <data>`: attempts `A` accepted, `U` unusable connection,
 `R<k>` refused / `G<k>` GOAWAY / `P<k>` PROTOCOL_ERROR from the peer / `O<k>` other error after `k`
@@ -485,6 +561,9 @@ def lanes : List (String × (List String → String)) := [
   ("c01send", laneSend),
   ("c01h2body", laneH2Body),
   ("c01h3body", laneH3Body),
+  ("c01h1body", laneH1Body),
+  ("c01h2wire", laneH2Wire),
+  ("c01attempts", laneAttempts),
   ("c01pipe", lanePipe),
   ("c01h1", laneH1),
   ("c01url", laneUrl),
